@@ -132,6 +132,13 @@ def run(ctx):
             for z in walk(e):
                 if z[0] == "closure" and z[1] in prog.funcs and any(True for _ in call_sites(prog.funcs[z[1]], lambda pp, c: pp == OR + "::error")):
                     okerr = True
+    if not okerr:
+        # `if self.cache(pkt).is_err() { self.error(..) }` / `if let Err(_) = self.cache(pkt) { .. }`
+        pfl = Flow(p.body)
+        for s in call_sites(p, lambda pp, c: pp == OR + "::error"):
+            for (a, t) in pfl.facts_at(s.bb):
+                if a[0] == "variant" and ((a[2] == "Err") == t) and any(c[0] == "call" and c[1] == OR + "::cache" for c in walk(a[1])):
+                    okerr = True
     if okerr:
         r2.ok("push: cache() failure -> error()", "", loc(p.sp))
     else:
